@@ -327,6 +327,11 @@ def main():
             failing = None
             violations.append(dict(kind="search-error", detail=repr(e)))
 
+    if failing is None:
+        for p in extra_problems:
+            if isinstance(p, dict) and p.get("failing_input") and p.get("rustc_accepts") is not False:
+                failing = dict(history=p["failing_input"], klass=p.get("type", "") + ":" + p.get("trait", ""), detail=p)
+                break
     known = load_known()
     known_hits = []
     if violations:
